@@ -617,7 +617,7 @@ def _rand_case(rng, fn, malformed=False):
             tree = top(hidden, 0.8)
             d.update(tree=tree, start=rng.choice([0, 0, rng.randrange(core.spec_size(tree))]))
     if fn in DF_FNS:
-        cols = rng.choice([[], ["v"], ["v", "w"], ["w", "f"], ["v", "name"], ["age", "w", "f"]])
+        cols = rng.choice([[], ["v"], ["v", "w"], ["w", "f"], ["v", "name"], ["age", "w", "f"], ["g"], ["g", "v"]])
     elif fn in ("dict",):
         cols = rng.choice([[], ["v"], ["v", "w"], ["v", "name", "f"]])
     elif fn in ("adddict", "addpath"):
